@@ -67,13 +67,33 @@ def log(*a):
     print(*a, file=sys.stderr, flush=True)
 
 
-def sh(cmd, timeout=1800, cwd=None, env=None, check=False, stdin=None):
+def sh(cmd, timeout=1800, cwd=None, env=None, check=False, stdin=None, mem_gb=None):
+    """Run a command in its own process group; on timeout the whole group is killed (a timed-out `make`
+    must not leave an orphaned coqc behind) and subprocess.TimeoutExpired is raised as before.
+    mem_gb: address-space limit per process of the group (a runaway coqc must not take the machine down)."""
+    import signal
     t0 = time.time()
-    p = subprocess.run(cmd, shell=isinstance(cmd, str), cwd=cwd, env=env or ENV, timeout=timeout,
-                       stdout=subprocess.PIPE, stderr=subprocess.STDOUT, stdin=stdin, text=True, errors="replace")
+
+    def pre():
+        os.setsid()
+        if mem_gb:
+            lim = int(mem_gb * (1 << 30))
+            resource.setrlimit(resource.RLIMIT_AS, (lim, lim))
+
+    p = subprocess.Popen(cmd, shell=isinstance(cmd, str), cwd=cwd, env=env or ENV, preexec_fn=pre,
+                         stdout=subprocess.PIPE, stderr=subprocess.STDOUT, stdin=stdin, text=True, errors="replace")
+    try:
+        out, _ = p.communicate(timeout=timeout)
+    except subprocess.TimeoutExpired:
+        try:
+            os.killpg(p.pid, signal.SIGKILL)
+        except OSError:
+            pass
+        p.communicate()
+        raise
     if check and p.returncode != 0:
-        raise CheckFailure("command failed (%s): %s\n%s" % (p.returncode, cmd, p.stdout[-4000:]))
-    return p.returncode, p.stdout, time.time() - t0
+        raise CheckFailure("command failed (%s): %s\n%s" % (p.returncode, cmd, out[-4000:]))
+    return p.returncode, out, time.time() - t0
 
 
 def write_if_changed(path, content):
@@ -153,7 +173,7 @@ def coq_make(targets, timeout=1500):
     # VERIF_REPO runs build in their private copy of coq/: they need not queue behind the main tree's lock
     with FLock("coq" + ("-" + os.path.basename(ALT_DIR) if ALT else "")):
         coq_prepare()
-        rc, out, dt = sh(["make", "-j%d" % NCPU] + list(targets), cwd=COQ, timeout=timeout)
+        rc, out, dt = sh(["make", "-j%d" % NCPU] + list(targets), cwd=COQ, timeout=timeout, mem_gb=16)
     return rc, out, dt
 
 
